@@ -306,6 +306,8 @@ def c07(ctx):
         [b + d for b in (0.25, 0.5, 0.75) for d in (-1e-6, 1e-6, -1e-13, 1e-13)]))
     n = Q.r_small_quantile(ctx, db, e, roles, grid)
     ctx.floor("(n, p) grid cases of the small-sample quantile", n, 36)
+    # the small states quantile() is analysed on are exactly what add builds from 1..4 observations
+    Q.r_count_small(ctx, db, e, roles)
 
 
 def c15(ctx):
@@ -403,12 +405,14 @@ def c13(ctx):
         H.r_merge_addassign(ctx, db, e, ln, consts)
         H.r_scale_reset(ctx, db, e, ln, consts)
         H.r_iter_views(ctx, db, e, ln, consts)
+        H.r_iter_overrides(ctx, db, e, ln, consts)
     dba, hs = hist_const_types(ctx)
     for e, ln, consts in hs:
         n += 1
         H.r_merge_addassign(ctx, dba, e, ln, consts)
         H.r_scale_reset(ctx, dba, e, ln, consts)
         H.r_iter_views(ctx, dba, e, ln, consts)
+        H.r_iter_overrides(ctx, dba, e, ln, consts)
     ctx.floor("histogram instantiations analysed (merge/views)", n, 6)
 
 
@@ -538,10 +542,12 @@ def c10(ctx):
             continue
         n += 1
         NL.accessor_laws(ctx, db, e)
+        R.r_count(ctx, db, e, "B")    # the n of n/(n-1) is the number of observations, through add and merge
     for t, N_ in moment_types(ctx, db):
         e = Est(db, t)
         n += 1
         NL.accessor_laws(ctx, db, e)
+        R.r_count(ctx, db, e, "B")
         NL.moments_sample_laws(ctx, db, e)
         scen = N.est_scenarios(ctx, db, e, only=("sample_variance", "sample_skewness", "sample_excess_kurtosis"), nmin_generic=4,
                                accessor_args={"central_moment": [(2,), (3,), (4,)]})
